@@ -28,8 +28,12 @@ def solve_aquarium(height, width, blocks, clue_row, clue_col):
             block_id[y][x] = i
     for y in range(height):
         for x in range(width):
-            if x < width - 1 and block_id[y][x] == block_id[y][x + 1]:
-                solver.ensure(is_water[y, x] == is_water[y, x + 1])
+            # the water level is the same across the full width of a tank: tie the cell to
+            # the next cell of the same tank in this row, adjacent or not
+            for x2 in range(x + 1, width):
+                if block_id[y][x] == block_id[y][x2]:
+                    solver.ensure(is_water[y, x] == is_water[y, x2])
+                    break
             if y < height - 1 and block_id[y][x] == block_id[y + 1][x]:
                 solver.ensure(is_water[y, x].then(is_water[y + 1, x]))
     is_sat = solver.solve()
